@@ -15,7 +15,8 @@ func defC06(mode int) *ph.Def {
 			{Name: "bool", Kind: ph.Bool, Aliases: []string{"b", "é"}, Env: "VERIF_C06_BOOL"},
 			{Name: "str", Kind: ph.Str, Aliases: []string{"s", "string"}, Var: true, DefS: "D"},
 			{Name: "int", Kind: ph.Int, Var: true, DefI: 7, Env: "VERIF_C06_INT"},
-			{Name: "inc", Kind: ph.Incr, Aliases: []string{"i2"}, DefI: 1},
+			{Name: "inc", Kind: ph.Incr, Aliases: []string{"i2", "9"}, DefI: 1}, // gzip-style numeric alias
+			{Name: "nums", Kind: ph.IntS, Min: 1, Max: 3},
 			{Name: "list", Kind: ph.StrS, Min: 1, Max: 2, Aliases: []string{"l"}, Var: true},
 			{Name: "sc", Kind: ph.Bool, SetCalled: true},
 			{Name: "opt", Kind: ph.StrOpt, Aliases: []string{"o"}, DefS: "OD"},
@@ -26,12 +27,12 @@ func defC06(mode int) *ph.Def {
 }
 
 // alias groups for the metamorphic relation
-var c06Groups = [][]string{{"bool", "b", "é"}, {"str", "s", "string"}, {"inc", "i2"}, {"list", "l"}, {"opt", "o"}, {"nb", "n", "ä"}, {"help", "?", "h"}, {"defs", "D"}}
+var c06Groups = [][]string{{"bool", "b", "é"}, {"str", "s", "string"}, {"inc", "i2", "9"}, {"list", "l"}, {"opt", "o"}, {"nb", "n", "ä"}, {"help", "?", "h"}, {"defs", "D"}}
 
 // long spellings of every name and alias, the short spelling (one dash, which means the same in all three modes for a
 // one-letter name without attached text) of some one-letter aliases including a multibyte one, the help option and its aliases
 var c06Alpha = []string{"--bool", "--b", "--str", "--s", "--string", "--int", "--inc", "--i2", "--list", "--l", "--opt", "--o", "--sc", "--nb", "--n", "v", "5", "p", "--zz", "c", "w", "--str=w",
-	"-b", "-é", "-s", "-o", "--help", "-?", "--h", "-ä", "--pre=x", "--defs=Key=v", "--D=k=w"}
+	"-b", "-é", "-s", "-o", "--help", "-?", "--h", "-ä", "--pre=x", "--defs=Key=v", "--D=k=w", "--nums", "-9", "--9"}
 
 // c06Key returns the option key a token spells (long form, or short form of a one-letter key) and whether it is such a token.
 func c06Key(t string) (string, bool) {
@@ -128,7 +129,7 @@ func init() {
 	register(&Check{
 		ID:        "C06",
 		QuickSecs: 120, ThoroSecs: 1200,
-		Rule: "input-space exploration: every argv of length <= L-1 over 33 tokens and of length L over the first 22 of them (every name and alias of 8 options of 6 kinds, half declared through *Var, one bound to an environment variable, one marked SetCalled, one with a multibyte one-letter alias; short spellings of one-letter aliases; the help option of HelpCommand and its aliases; values, positional, unknown option, command, UnsetOptions wrapper command) x 3 modes x environment {unset, valid, text that is not valid for the bound bool}; " +
+		Rule: "input-space exploration: every argv of length <= L-1 over 36 tokens and of length L over the first 22 of them (every name and alias of 8 options of 6 kinds, half declared through *Var, one bound to an environment variable, one marked SetCalled, one with a multibyte one-letter alias; short spellings of one-letter aliases; the help option of HelpCommand and its aliases; values, positional, unknown option, command, UnsetOptions wrapper command) x 3 modes x environment {unset, valid, text that is not valid for the bound bool}; " +
 			"absolute: values (pointer, *Var target and Value() agree), Called, CalledAs compared with the reference model, untouched options keep defaults; metamorphic: replacing any occurrence of a name by any other alias of the same option changes nothing but CalledAs; " +
 			"distinct_nontrivial = distinct in-domain cases",
 		Assume: []string{"argv longer than L and other option sets are not covered"},
